@@ -97,6 +97,10 @@ func c17Send(c *sendCtx) {
 		return
 	}
 	tout, tres := protect(tmsg, twinKey, s.From, s.Rand)
+	if c.retried {
+		tout, tres = protect(tmsg, twinKey, s.From, &RandScript{Seed: s.Rand.Seed ^ 0x7e7e})
+		fired = false
+	}
 	what := "protect"
 	if fired {
 		// tolerance: an operation in which an injected failure fired may fail, and must then produce no datagram
@@ -307,6 +311,7 @@ func genC17(r *Rng, idx int, tier string) *Scenario {
 			st.Rand.Chunk = Pick(r, 1, 3, 7)
 		}
 		if fail {
+			st.Retry = r.Chance(1, 3)
 			st.Rand.FailAt, st.Rand.FailMode = r.Range(1, 2), Pick(r, "err", "eof", "partial")
 			if r.Chance(1, 3) {
 				st.Rand.Chunk = Pick(r, 1, 4)
